@@ -51,6 +51,7 @@ func writeEvidence(pc *ParentCtx, wall float64, newViolations, knownSeen int, in
 			"harness":    "verifharness (vmon parent/child), race build: " + fmt.Sprint(pc.Prop.Race),
 			"repo_head":  gitHead(pc.RepoDir),
 			"repo_dirty": gitDirty(pc.RepoDir),
+			"child_TZ":   "child processes run under TZ in " + fmt.Sprint(ChildZones) + " (by replica and shard)",
 		},
 	}
 	if pc.Prop.Exhaustive {
